@@ -214,6 +214,41 @@ def run(F, ck, tier):
         need = ['c:LookupTableGate::wire_ith_looked_inp', 'c:LookupTableGate::wire_ith_looked_out', 'c:LookupTableGate::wire_ith_multiplicity', 'c:LookupGate::wire_ith_looking_inp', 'c:LookupGate::wire_ith_looking_out']
         miss = [a for a in need if not flow.has_call(d, a[2:])]
         ck.ob('R08.5', 'wires:' + q, not miss, 'all lookup gate wires flow into the returned constraints' if not miss else '%s: wires %s never reach a constraint' % (q, [m[2:] for m in miss]), '%s:%d' % (fn.file, fn.line))
+    # the prover writes the multiplicity of EVERY table entry of EVERY table, whatever the number of lookups
+    E.check('R08.5', dict(id='prover.multiplicities', fn='plonk::prover::set_lookup_wires', crate='plonky2', kind='try', callee='set_target',
+                          src=['c:LookupTableGate::wire_ith_multiplicity', 'c:from_canonical_usize'], ctx={'uncond': True}, whole=True,
+                          why='multiplicities are written for every table entry; an early `continue` (e.g. when no padding is needed) would leave them 0 and the argument unbalanced'))
+    # R08.4 integer parameters of the argument agree between the three evaluators
+    ck.rule('R08.4', 'the three lookup evaluators derive the same integer parameters (slots per row, degrees, number of partial polynomials, table chunk size) - compared as normalised polynomials, local names and len() receivers abstracted')
+    from . import poly as _poly
+    import re as _re
+    E_ = _poly.Ev(F)
+    params = {}
+    for q, fn in fns.items():
+        env, out = {}, []
+        for s_ in walk(fn.body):
+            if s_.get('k') == 'Let' and 'i' in s_ and s_['p'].get('k') == 'Bind' and s_['p']['id'] not in env:
+                t_ = fn.types[s_['p']['t']] if s_['p'].get('t') is not None else ''
+                try:
+                    env[s_['p']['id']] = E_.ev(fn, s_['i'], env, 3)
+                    if t_ == 'usize':
+                        out.append(_poly.show(env[s_['p']['id']]))
+                except _poly.Unknown as ex:
+                    env[s_['p']['id']] = ex
+        # abstract the receivers of len(): numbered by first appearance
+        seen_ = {}
+        def canon(m):
+            return seen_.setdefault(m.group(0), 'len#%d' % len(seen_))
+        params[q] = sorted(_re.sub(r'len\(@[^)]*\)', canon, x) for x in out)
+    ref4 = params.get('check_lookup_constraints')
+    for q in fns:
+        if q == 'check_lookup_constraints' or ref4 is None:
+            continue
+        ok4 = params[q] == ref4
+        ck.ob('R08.4', 'params:' + q, ok4, '%d integer parameters agree' % len(ref4) if ok4 else
+              'lookup evaluators derive different integer parameters: check_lookup_constraints has %s but %s has %s - prover, native verifier and in-circuit verifier then group table slots / lookups differently and honest proofs are rejected for some row widths' %
+              ([x for x in ref4 if x not in params[q]], q, [x for x in params[q] if x not in ref4]), '%s:%d' % (fns[q].file, fns[q].line))
+    ck.floor('R08.4', 'integer parameters per lookup evaluator', len(ref4 or []), 4)
     # R08.9 padding bound: the prover's padding of looking rows and the table polynomial's padding (native and in-circuit)
     npad = 0
     for sw, n, res in pad_bounds(F):
